@@ -99,17 +99,22 @@ def fwdSkip (g : Graph α) : Nat → Nat → Res Nat
       if nn.ts.isNone && en.next != g.size - 1 then fwdSkip g f en.next else pure idxNext
     else pure idxNext
 
+/-- `push_next_alts`: schedule the chain of alternate (fake) nodes hanging off a node that has just been
+    scheduled and add them to the queue -/
+def pushNextAlts : Nat → Graph α → List (α × Nat) → Nat → Res (Graph α × List (α × Nat))
+  | 0, _, _, _ => .panic "fuel"
+  | f + 1, g, q, idxCurr => do
+    let c ← getN g idxCurr
+    if c.nextAlt = 0 then pure (g, q) else
+    let g ← modN g c.nextAlt (fun x => { x with ts := c.ts })
+    let a ← getN g c.nextAlt
+    let t ← notNan (a.ts.map (· + a.ttn))
+    pushNextAlts f g ((t, c.nextAlt) :: q) c.nextAlt
+
 /-- "Iterate until reaching any join node (but also process the first node)" -/
 def fwdChain : Nat → Graph α → List (α × Nat) → Nat → Nat → Res (Graph α × List (α × Nat) × Nat × Nat)
   | 0, _, _, _, _ => .panic "fuel"
   | f + 1, g, q, idxCurr, idxNext => do
-    let c ← getN g idxCurr
-    let (g, q) ← (if c.nextAlt != 0 then do
-        let g ← modN g c.nextAlt (fun x => { x with ts := c.ts })
-        let a ← getN g c.nextAlt
-        let t ← notNan (a.ts.map (· + a.ttn))
-        pure (g, (t, c.nextAlt) :: q)
-      else pure (g, q))
     let nx ← getN g idxNext
     check nx.ts.isNone
     let c ← getN g idxCurr
@@ -117,6 +122,7 @@ def fwdChain : Nat → Graph α → List (α × Nat) → Nat → Nat → Res (Gr
     let idxCurr := idxNext
     let nx ← getN g idxNext
     let idxNext := nx.next
+    let (g, q) ← pushNextAlts (g.size + 1) g q idxCurr
     let nn ← getN g idxNext
     if nn.prevAlt != 0 || nn.ty = .fake then pure (g, q, idxCurr, idxNext)
     else fwdChain f g q idxCurr idxNext
@@ -163,7 +169,8 @@ def fwdLoop : Nat → Graph α → List (α × Nat) → Res (Graph α)
 def updateForward (g : Graph α) (depart : α) : Res (Graph α) := do
   let g ← modN g 0 (fun x => { x with ts := some depart })
   let g ← modN g 1 (fun x => { x with ts := some depart })
-  fwdLoop (2 * g.size + 2) g [(depart, 1)]
+  let (g, q) ← pushNextAlts (g.size + 1) g [(depart, 1)] 1
+  fwdLoop (2 * g.size + 2) g q
 
 /-! ### backward -/
 
@@ -187,24 +194,30 @@ def bwdSkip (g : Graph α) (passed : Array Bool) : Nat → Nat → Res Nat
       if !pp && ep.prev != 0 then bwdSkip g passed f ep.prev else pure idxPrev
     else pure idxPrev
 
+/-- `push_prev_alts`: mark the chain of alternate previous (fake) nodes of a node that has just been
+    passed, record their slack, add them to the queue keyed by the time their own previous node would get -/
+def pushPrevAlts : Nat → Graph α → Array Bool → List (α × α × Nat) → Nat →
+    Res (Graph α × Array Bool × List (α × α × Nat))
+  | 0, _, _, _, _ => .panic "fuel"
+  | f + 1, g, passed, q, idxCurr => do
+    let c ← getN g idxCurr
+    if c.prevAlt = 0 then pure (g, passed, q) else
+    let timeSched := c.ts
+    let a ← getN g c.prevAlt
+    let timeSubAlt := optSub a.ts timeSched
+    let g ← modN g c.prevAlt (fun x => { x with ts := timeSched })
+    let passed ← setB passed c.prevAlt
+    let a ← getN g c.prevAlt
+    let ap ← getN g a.prev
+    let k ← notNan (optSub timeSched (some ap.ttn))
+    let s ← notNan timeSubAlt
+    pushPrevAlts f g passed ((k, s, c.prevAlt) :: q) c.prevAlt
+
 /-- "Iterate until reaching any split node (but process the first node)" -/
 def bwdChain (timeSub : α) : Nat → Graph α → Array Bool → List (α × α × Nat) → Nat → Nat →
     Res (Graph α × Array Bool × List (α × α × Nat) × Nat × Nat)
   | 0, _, _, _, _, _ => .panic "fuel"
-  | f + 1, g, passed, q, idxCurr, idxPrev => do
-    let c ← getN g idxCurr
-    let (g, passed, q) ← (if c.prevAlt != 0 then do
-        let timeSched := c.ts
-        let a ← getN g c.prevAlt
-        let timeSubAlt := optSub a.ts timeSched
-        let g ← modN g c.prevAlt (fun x => { x with ts := timeSched })
-        let passed ← setB passed c.prevAlt
-        let a ← getN g c.prevAlt
-        let ap ← getN g a.prev
-        let k ← notNan (optSub timeSched (some ap.ttn))
-        let s ← notNan timeSubAlt
-        pure (g, passed, (k, s, c.prevAlt) :: q)
-      else pure (g, passed, q))
+  | f + 1, g, passed, q, _, idxPrev => do
     let pp ← getB passed idxPrev
     check (!pp)
     let g ← modN g idxPrev (fun x => { x with ts := optSub x.ts (some timeSub) })
@@ -212,6 +225,7 @@ def bwdChain (timeSub : α) : Nat → Graph α → Array Bool → List (α × α
     let idxCurr := idxPrev
     let p ← getN g idxPrev
     let idxPrev := p.prev
+    let (g, passed, q) ← pushPrevAlts (g.size + 1) g passed q idxCurr
     let pn ← getN g idxPrev
     if pn.nextAlt != 0 || pn.ty = .fake then pure (g, passed, q, idxCurr, idxPrev)
     else bwdChain timeSub f g passed q idxCurr idxPrev
@@ -275,7 +289,11 @@ def updateBackward (g : Graph α) : Res (Graph α) := do
   let passed := Array.replicate n false
   let passed ← setB passed (n - 1)
   let passed ← setB passed (n - 2)
-  bwdLoop (2 * n + 2) g passed [(0, 0, n - 2)]
+  let st ← getN g (n - 2)
+  let sp ← getN g st.prev
+  let k ← notNan (optSub st.ts (some sp.ttn))
+  let (g, passed, q) ← pushPrevAlts (n + 1) g passed [(k, 0, n - 2)] (n - 2)
+  bwdLoop (2 * n + 2) g passed q
 
 /-- `get_running_time_hours`: `(last.time_sched - first.time_sched).get::<si::hour>()` -/
 def runningTimeHours (c3600 : α) (first last : α) : α := (last - first) / c3600
